@@ -159,7 +159,7 @@ def cases(tier, seed, i, n):
                  dict(z=True, ext='permessage-deflate; client_no_context_takeover'),
                  dict(z=True, ext='permessage-deflate; client_max_window_bits=9; server_max_window_bits=9')]
         # (1) data sends: histories of calls on one connection, all length classes
-        reps = 6 if tier == 'quick' else 120
+        reps = 6 if tier == 'quick' else 500
         for rep in range(reps):
             for mode in modes:
                 for mask in (MASKS if rep < 2 else (None,)):
@@ -237,7 +237,7 @@ def cases(tier, seed, i, n):
         yield dict(kind='close', mode=modes[0], args=[])
         yield dict(kind='close', mode=modes[0], kw=dict(code=4000))
         yield dict(kind='close', mode=modes[0], kw=dict(reason='only-reason'))
-        extra = 40 if tier == 'quick' else 3000
+        extra = 40 if tier == 'quick' else 60000
         for _ in range(extra):
             yield dict(kind='close', mode=rnd.choice(modes), args=[rnd.choice((rnd.randint(0, 65535), rnd.randint(-5, 70000))),
                                                                   rnd.choice((gen.text_of_len(rnd, rnd.randint(0, 130)).decode(), rnd.randbytes(rnd.randint(0, 130))))])
@@ -286,6 +286,7 @@ def run_case(case, acc):
         peer = deflate_peer.Peer(int(opts.get('server_max_window_bits') or 15), int(opts.get('client_max_window_bits') or 15),
                                  'server_no_context_takeover' in opts, 'client_no_context_takeover' in opts)
     for rec in records:
+        acc.executed()
         judge_call(case, rec, acc, z, peer, mask)
 
 
